@@ -188,7 +188,7 @@ impl UserPrmDataType {
                 s[..1].copy_from_slice(&i8::try_from(value)?.to_be_bytes());
             }
             UserPrmDataType::Signed16 => {
-                s[..2].copy_from_slice(&u16::try_from(value)?.to_be_bytes());
+                s[..2].copy_from_slice(&i16::try_from(value)?.to_be_bytes());
             }
             UserPrmDataType::Signed32 => {
                 s[..4].copy_from_slice(&i32::try_from(value)?.to_be_bytes());
